@@ -171,22 +171,38 @@ def prior_activity(prior, name):
     return cls
 
 
-def check_on(name, args, depth, side, version=2.0, spell=0, prior=None):
+# harmless classes that may hold the offending descriptor in one of their attributes: a plain
+# namespace, a dict subclass, and exception classes (which restore their state through __setstate__)
+OUTER_BEANS = [None, None, None, "types.SimpleNamespace", "collections.OrderedDict", "builtins.ValueError", "builtins.KeyError"]
+
+
+def check_on(name, args, depth, side, version=2.0, spell=0, prior=None, outer=None):
     """A well-formed descriptor [name, args] with an invalid name"""
     try:
         homonym = prior_activity(prior, name)
-        _check_on(name, args, depth, side, version, spell)
+        _check_on(name, args, depth, side, version, spell, outer)
         if homonym is not None and homonym._made[0]:
             fail("C08/invalid-name-constructed", "an existing class named %r was instantiated %d times for a descriptor with that (invalid) name" % (name, homonym._made[0]))
     finally:
         del _prior_keepalive[:]
 
 
-def _check_on(name, args, depth, side, version=2.0, spell=0):
+def _outer_quiet(evs, outer):
+    """Events caused by resolving the (valid) enclosing class are not the offending descriptor's"""
+    if not outer:
+        return evs
+    top = outer.split(".")[0]
+    return [e for e in evs if str(e[1]).split(".")[0] != top]
+
+
+def _check_on(name, args, depth, side, version=2.0, spell=0, outer=None):
     from jsonrpclib import jsonclass as JC, jsonrpc as J
     from jsonrpclib.config import Config
 
     desc = {"__jsonclass__": [name, args], "x": 1}
+    if outer:
+        # the offending descriptor sits in an attribute of a bean of a harmless class
+        desc = {"__jsonclass__": [outer, []], "held": desc, "n": 1}
     payload = wrap_payload(desc, depth, "list")
     if side == "load":
         r, evs, imps, made = observe(lambda: JC.load(payload))
@@ -197,22 +213,25 @@ def _check_on(name, args, depth, side, version=2.0, spell=0):
         registry = refmodel.Registry()
         disp, dm, registry, cfg = refmodel.make_dispatcher(version, True, "funcs", registry)
         text = respell(json.dumps({"jsonrpc": "2.0", "id": 1, "method": "echo", "params": [payload]}), spell)
+        if depth % 3 == 2:
+            # the same call as an entry of a batch: the whole body is rejected
+            text = '[{"jsonrpc": "2.0", "id": 0, "method": "echo", "params": [0]}, %s, 5]' % text
         r, evs, imps, made = observe(lambda: disp._marshaled_dispatch(text))
         if r[0] != "ret":
             fail("C02/dispatcher-raised:%s" % type(r[1]).__name__, "dispatcher raised %r" % (r[1],))
         got, single = refmodel.parse_reply(r[1])
-        if len(got) != 1 or not got[0].get("error") or got[0]["error"]["code"] != -32700:
+        if len(got) != 1 or not single or not got[0].get("error") or got[0]["error"]["code"] != -32700:
             fail("C08/server-not-32700", "server answered %r to a descriptor named %r" % (r[1][:200], name))
         if registry.log:
             fail("C08/server-invoked", "a registered method ran for a rejected payload: %r" % (registry.log,))
-        if not silent(evs, imps, made):
+        if not silent(_outer_quiet(evs, outer), imps, made):
             fail("C08/import-before-validation", "server side: import/construction observed for name %r: %r imports=%d made=%d" % (name, evs, imps, made))
         return
     if r[0] != "exc":
         fail("C08/invalid-name-accepted", "descriptor named %r was accepted: %r" % (name, r[1]))
     if not isinstance(r[1], JC.TranslationError):
         fail("C08/not-translation-error", "descriptor named %r raised %s instead of TranslationError" % (name, type(r[1]).__name__))
-    if not silent(evs, imps, made):
+    if not silent(_outer_quiet(evs, outer), imps, made):
         fail("C08/import-before-validation", "import/construction observed for invalid name %r: %r imports=%d made=%d" % (name, evs, imps, made))
 
 
@@ -260,7 +279,7 @@ def random_on_cases(draw):
     return {"name": name, "args": draw(st.sampled_from([[], {}, [1], {"a": 1}])), "depth": draw(st.integers(0, 4)),
             "side": draw(st.sampled_from(["load", "client", "server"])), "version": draw(st.sampled_from([1.0, 2.0])), "kind": kind,
             "spell": draw(st.one_of(st.just(0), st.just(0), st.integers(1, 2 ** 13 - 1))),
-            "prior": draw(st.sampled_from(PRIORS))}
+            "prior": draw(st.sampled_from(PRIORS)), "outer": draw(st.sampled_from(OUTER_BEANS))}
 
 
 def oracle_random_on(case):
@@ -268,10 +287,10 @@ def oracle_random_on(case):
     name = case["name"]
     if not invalid_name(name):
         raise Skip()
-    check_on(name, case["args"], case["depth"], case["side"], case["version"], case.get("spell", 0), case.get("prior"))
+    check_on(name, case["args"], case["depth"], case["side"], case["version"], case.get("spell", 0), case.get("prior"), case.get("outer"))
     cleaned = re.sub(r"[^a-zA-Z0-9_.]", "", name)
     resolves = cleaned in CANARIES or cleaned in ("decimal.Decimal", "os.system", "subprocess.Popen", "builtins.eval")
-    return Info(nt=case["depth"] >= 1 or resolves, classes=["on", "side:" + case["side"], "kind:" + case["kind"], "depth:%d" % case["depth"], "prior:" + (case.get("prior") or "none")] + (["resolves-if-cleaned"] if resolves else []) + (["escaped-member-name"] if case.get("spell") and case["side"] != "load" else []),
+    return Info(nt=case["depth"] >= 1 or resolves, classes=["on", "side:" + case["side"], "kind:" + case["kind"], "depth:%d" % case["depth"], "prior:" + (case.get("prior") or "none")] + (["held-by:" + case["outer"]] if case.get("outer") else []) + (["resolves-if-cleaned"] if resolves else []) + (["escaped-member-name"] if case.get("spell") and case["side"] != "load" else []),
                 sample={"name": name, "depth": case["depth"], "side": case["side"]})
 
 
